@@ -63,10 +63,13 @@ const PAYEE_PATTERNS: &[&str] = &[
     "Coop(?P<code>\\d*)",
     "^(?P<payee>.*)Migros",
     "Transfer (?P<code>[a-z]*)(?P<payee>.*)",
+    // blanks at the edge of a pattern are significant
+    "^ATM ",
+    " Shop$",
 ];
 const CATEGORY_PATTERNS: &[&str] = &["Travel|Cash", "^Groceries$", "income", "Misc"];
 const ACCOUNTS: &[&str] = &["Expenses:Grocery", "Expenses:Travel", "Income:Salary", "Assets:Cash", "Expenses:Misc", "Assets:Wire"];
-const RECORD_PAYEES: &[&str] = &["Debit Card 31415 Coop", "debit card 999 MIGROS Zürich", "SBB CFF FFS", "Salary October", "ATM 五反田", "Unknown Shop", "Coop", "Migros", "Transfer 0042", "sbb ticket"];
+const RECORD_PAYEES: &[&str] = &["Debit Card 31415 Coop", "debit card 999 MIGROS Zürich", "SBB CFF FFS", "Salary October", "ATM 五反田", "Unknown Shop", "Coop", "Migros", "Transfer 0042", "sbb ticket", "ATMOS Energy", "Workshop"];
 const RECORD_CATEGORIES: &[&str] = &["Groceries", "Travel", "Income", "Cash", "Misc", ""];
 
 fn gen_rule(rng: &mut Rng) -> RuleSpec {
@@ -274,7 +277,8 @@ impl Check for C17 {
         let file_rel = "bank/checking/2021/stmt.csv";
         let src: PathBuf = dir.join(file_rel);
         // documents: a complete base document plus 0-4 partial ones
-        let path_pool = ["bank/checking/", "checking", "2021/", "stmt.csv", "other/", "k/ch", "bank/", "/2021/stmt", "ing/2"];
+        // the last four do not occur in the file path although they would without their final slash
+        let path_pool = ["bank/checking/", "checking", "2021/", "stmt.csv", "other/", "k/ch", "bank/", "/2021/stmt", "ing/2", "ban/", "check/", "202/", "stmt/"];
         let mut docs = vec![DocSpec {
             path: "bank/".to_string(),
             account: Some("Assets:Base Bank"),
@@ -424,7 +428,7 @@ impl Check for C17 {
     }
     fn rule(&self) -> String {
         "Each case: 1-5 YAML configuration documents in random order - one complete base document (`bank/`) and partial ones whose `path` is a substring of the \
-         file path (`bank/checking/`, `checking`, `2021/`, `stmt.csv`, `k/ch`, `/2021/stmt`, `ing/2`, with equal-length paths occurring) or unrelated (`other/`), each \
+         file path (`bank/checking/`, `checking`, `2021/`, `stmt.csv`, `k/ch`, `/2021/stmt`, `ing/2`, with equal-length paths occurring) or not occurring in it (`other/`, and `ban/`, `check/`, `202/`, `stmt/`, which would occur without their final slash), each \
          overriding a random subset of account, account_type, commodity, operator, encoding, format (date format) and carrying 0-3 rewrite rules. Rules draw regexes \
          from a pool (capture groups payee / code, case variations, anchors, Unicode) on payee and category, as single maps, AND-maps or OR-lists of AND-maps (at most \
          one capturing matcher per map), with account / payee / pending in all combinations; rules that only fire on a payee rewritten by an earlier rule are in the \
